@@ -76,7 +76,17 @@ func checkMatchesSubject(r *Run, prog *Program, a *Anchors, pfx string) {
 						}
 					}
 				}
-				if f, _ := calleeOfSym(x); isReflectMethod(f, "Bytes") || isReflectMethod(f, "String") {
+				if f, _ := calleeOfSym(x); isReflectMethod(f, "Bytes") {
+					// Bytes() of Convert(value, []byte type): the same bytes as Interface().([]byte)
+					if as := symArgs(sm.St, x); len(as) == 1 {
+						if f2, _ := calleeOfSym(as[0]); isReflectMethod(f2, "Convert") {
+							if a2 := symArgs(sm.St, as[0]); len(a2) == 2 && a2[0].Key() == pv.Key() && isByteSliceType(prog, sm.St, a2[1]) {
+								ok = true
+							}
+						}
+					}
+				}
+				if f, _ := calleeOfSym(x); !ok && (isReflectMethod(f, "Bytes") || isReflectMethod(f, "String")) {
 					if as := symArgs(sm.St, x); len(as) == 1 && as[0].Key() == pv.Key() {
 						k := ke.kinds(sm.St, pv)
 						if isReflectMethod(f, "String") && k.SubsetOf(ks(kString)) {
@@ -262,4 +272,36 @@ func checkRuneErrorWidth(r *Run, prog *Program, pfx string) {
 		r.Check(pfx+".engine", "rune-error-with-width:"+fn.Name(), prog.pos(fn.Pos()), ok, "(*parser)."+fn.Name()+" treats the rune U+FFFD as end of input / invalid without looking at the width DecodeRune returned: a validly encoded U+FFFD is an ordinary character [path "+where+"]")
 	}
 	r.Check(pfx+".engine", "rune-error-sites", "grammar/grammar.go", n >= 2, fmt.Sprintf("%d engine methods compare with utf8.RuneError (expected at least 2)", n))
+}
+
+// isByteSliceType: t is reflect.TypeOf(<a []byte>) — computed on this path or by a package-level initialiser.
+func isByteSliceType(prog *Program, st *pstate, t *Sym) bool {
+	if t == nil {
+		return false
+	}
+	if t.K == sLoad && t.A != nil && t.A.K == sGlobal {
+		// an initialise-once variable whose load was not resolved: look at its initialiser
+		if g, ok := t.A.V.(*ssa.Global); ok && prog.SSA != nil {
+			if v, ok := prog.Globals().st.gcells[g]; ok {
+				t = v
+			}
+		}
+	}
+	fn, call := calleeOfSym(t)
+	if !isReflectFunc(fn, "TypeOf") || call == nil {
+		return false
+	}
+	as := symArgs(st, t)
+	if len(as) == 0 && prog.SSA != nil {
+		as = symArgs(prog.Globals().st, t)
+	}
+	if len(as) != 1 || as[0].K != sMkIface || as[0].A == nil || as[0].A.T == nil {
+		return false
+	}
+	sl, ok := as[0].A.T.Underlying().(*types.Slice)
+	if !ok {
+		return false
+	}
+	b, ok := sl.Elem().Underlying().(*types.Basic)
+	return ok && b.Kind() == types.Uint8
 }
